@@ -66,8 +66,15 @@ claim("C06", "other",
       "Trusted: clang 14 + tbfscan, g++ -Wconversion as narrowing oracle, g++/clang++ for the probe witness.",
       "must-pass-through / who-may-allocate rules, -Wconversion witness, type-level probe kernel, curve-domain typing", "DESIGN.md §2 C06")
 
+claim("C20", "proof",
+      "For the five scalar direct-interaction routines of FP2PR.hpp: (1) loop shape - full rectangle for the mutual/remote routines, strict upper triangle for the in-leaf routine (self term excluded, counts 0 and 1 give empty loops); "
+      "(2) the straight-line per-pair body and the per-target accumulator flush are summarised as sympy expressions over x_s, x_t, q_s, q_t and equal dF_t = q_t q_s (x_s-x_t) s^3, dPhi_t = q_s s, and the opposite on the source side for mutual routines, every store accumulating; "
+      "by induction over the loops this gives the sums of the statement for all counts and all inputs, including sign, scaling and self-term handling that the suite cannot see because it uses these routines as its own reference; (3) the shipped kernels forward their source/target arguments in role order. Agreement 'to rounding' and the Inastemp path are not decided.",
+      "Trusted: clang 14 + tbfscan, sympy normal form, the frozen role table of the routines' parameters (data[0..2] position, data[3] physical value, rhs[0..2] force, rhs[3] potential).",
+      "algebraic normal form (sympy) of the per-pair update + loop-shape rule", "DESIGN.md §2 C20")
+
 _todo = "check not built yet in this round (see DESIGN.md §7 build order)"
-for p in ["C08","C10","C11","C14","C15","C20"]:
+for p in ["C08","C10","C11","C14","C15"]:
     NA[p] = _todo
 NA["C01"] = "exactly-once is a counting statement over all particle sets, heights, dimensions and groupings; no lint/effect/type argument bounds the list-builder arithmetic. Structural prerequisites are decided under C02/C03/C08/C11/C12."
 NA["C04"] = "bound on a floating-point truncation error over all positions/heights/orders: nothing about it is visible in the shape of the code (accumulate clause is under C08, code conventions under C11)."
